@@ -46,7 +46,7 @@ def amount_class(n):
 
 def check(v, hists):
     for h in hists:
-        box = {}
+        box = {"assets": [(a["denom"], a["ibc"]) for a in h.genesis["universe"]["assets"]], "burned": collections.Counter()}
 
         def on_begin(height, state, diff):
             box["totals_prev"] = chainlog.totals({k: x for k, x in state.items() if not k.startswith("~")})
@@ -73,9 +73,10 @@ def check(v, hists):
             tot = chainlog.totals(st)
             prev = box.get("totals_prev")
             if prev is not None:
+                burned, box["burned"] = box["burned"], collections.Counter()
                 for a in set(tot) | set(prev):
-                    if tot[a] != prev[a]:
-                        v.violate("C01/supply-changed-by-block", "asset %s: total of balances+escrow changed by %d in a block without IBC transfers" % (a[:14], tot[a] - prev[a]),
+                    if tot[a] + burned[a] != prev[a]:
+                        v.violate("C01/supply-changed-by-block", "asset %s: total of balances+escrow changed by %d beyond the IBC burns of the block" % (a[:14], tot[a] + burned[a] - prev[a]),
                                   {"hist": list(h.key), "height": height, "asset": a, "before": str(prev[a]), "after": str(tot[a])})
 
         for o in chainlog.walk(h, on_block_end=on_end, on_block_begin=on_begin):
@@ -95,7 +96,17 @@ def check(v, hists):
             per_asset = collections.Counter()
             for (who, asset), n in act.items():
                 per_asset[asset] += n
-            for a, n in per_asset.items():
+            # ICS-20: withdrawing a foreign voucher over the channel it came in on burns it (the only legal supply change here)
+            burns = collections.Counter()
+            for a in o.tx["actions"]:
+                if a["kind"] == "ics20_withdrawal":
+                    trace = chainlog.trace_of(box["assets"], a["denom"])
+                    if trace is not None and trace.startswith("transfer/%s/" % a["channel"]):
+                        burns[a["denom_ibc"]] += int(a["amount"])
+                        box["burned"][a["denom_ibc"]] += int(a["amount"]) if not o.trial else 0
+                        v.saw("ibc_burns")
+            for a in set(per_asset) | set(burns):
+                n = per_asset[a] + burns[a]
                 if n != 0:
                     v.violate("C01/value-created-or-destroyed-by-transaction", "asset %s: balances+escrow+block fees changed by %d within one transaction" % (a[:14], n), wit)
             if exp is None:
